@@ -457,7 +457,7 @@ func c04(c *Ctx) {
 	}
 
 	// ---- R7 mechanics of the unwrapping
-	r.Floor("C04.R7", 6)
+	r.Floor("C04.R7", 3)
 	c04Unwrap(p, r)
 	c04ElemComplete(p, r)
 	r.Floor("C04.R8", 3)
@@ -861,7 +861,33 @@ func (p *Prog) variadicCarriers() *variadicSet {
 
 // underVariadic: block runs only under a true bool condition that carries the variadic flag (see variadicCarriers),
 // or under the result of Type.IsVariadic().
+// underVariadic: block b runs only for variadic functions — under a true variadic flag in its own function, or in a
+// function every module call site of which (at least one) is itself under the flag.
 func underVariadic(p *Prog, b *ssa.BasicBlock) bool {
+	return underVariadicDepth(p, b, 0)
+}
+
+func underVariadicDepth(p *Prog, b *ssa.BasicBlock, depth int) bool {
+	if underVariadicLocal(p, b) {
+		return true
+	}
+	if depth >= 3 {
+		return false
+	}
+	f := b.Parent()
+	sites := p.callersOf(f)
+	if len(sites) == 0 {
+		return false
+	}
+	for _, cs := range sites {
+		if cs.Instr.Block() == nil || !underVariadicDepth(p, cs.Instr.Block(), depth+1) {
+			return false
+		}
+	}
+	return true
+}
+
+func underVariadicLocal(p *Prog, b *ssa.BasicBlock) bool {
 	vs := p.variadicCarriers()
 	for _, g := range guardsAt(b) {
 		if !g.Pol {
